@@ -138,6 +138,14 @@ func genE1(g *Gen) {
 	setG := func(pi []byte, gb []byte) []byte { return append(append([]byte{}, gb...), pi[32:]...) }
 	badKeys := append(append([][]byte{}, refSmall...), refNonCanon...)
 
+	// every alpha length 0..140 once (one Prove each): hash_to_curve assembles salt ‖ alpha ‖ framing ‖ DST, and a buffer
+	// or block boundary in that assembly is hit by exactly one length
+	{
+		key := vrfRefKey(g.Bytes(32))
+		for n := 0; n <= 140; n++ {
+			em("prove.alphalen", "E1", "vrf.prove", []string{"cur", "v10"}[n%2], hx(key.sk), hx(g.Bytes(n)))
+		}
+	}
 	for round := 0; !g.Full(); round++ {
 		key := vrfRefKey(g.Bytes(32))
 		var alpha []byte
